@@ -1692,6 +1692,22 @@ def cli_run_job(bindir, job, workdir):
 SEARCH_SIZES = (3000, 6000, 0, 600, 60, 20) if not os.environ.get("VERIF_C02_SEARCH") else (300, 300, 0, 100, 10, 5)     # (small search: mutation testing aid)
 
 
+def concurrent_formatting(ctx):
+    """the record formatters used by several goroutines at once, as the writers do (vh c02conc): every text must be the one
+    computed sequentially"""
+    cs = [dict(workers=w, records=600 if ctx.quick else 4000, rounds=3 if ctx.quick else 6, seed=ctx.rng.randrange(1 << 30)) for w in ((8, 32) if ctx.quick else (2, 8, 32, 64))]
+    nform = 0
+    for c in cs:
+        o = ctx.vh_robust("c02conc", [c], timeout=300)[0]
+        nform += o.get("formatted", 0)
+        if o.get("kind") != "ok" or o.get("wrong"):
+            ctx.violation("concurrent_format_%d" % c["workers"], dict(property="C02", kind="concurrent-formatting", case=c, implementation=o,
+                          expected="every record formatted by %d goroutines at once is written with its own title line, annotations, nucleotides and scores" % c["workers"],
+                          how_to_replay="python3 tools/check.py C02 --replay <this file>"))
+            break
+    ctx.cov["concurrent_formatting"] = dict(cases=len(cs), texts_formatted=nform)
+
+
 def run(ctx, broken):
     n_rt, n_scan, n_enc = (220, 400, 150) if ctx.quick else (5000, 12000, 3000)
     n_read, n_hist, n_file = (90, 12, 14) if ctx.quick else (3000, 300, 150)
@@ -1701,6 +1717,7 @@ def run(ctx, broken):
     cases += ex
     ctx.cov["exhaustive"] = "scanner vs model on every string over { } \" \\ a of length <= %d (%d strings)" % (scope, len(ex))
     obs, mism = run_cases(ctx, cases, broken, "main")
+    concurrent_formatting(ctx)
     ctx.cov["evaluations"] = len(cases)
     ctx.cov["distinct_nontrivial"] = len({case_key(c) for c in cases if nontrivial(c)})
     ctx.cov["rule"] = ("rt: records written and re-read (non-trivial = some annotation or a sequence longer than one 60-column line); "
@@ -1797,6 +1814,10 @@ def run(ctx, broken):
 
 
 def replay(ctx, rp):
+    if rp.get("kind") == "concurrent-formatting":
+        o = ctx.vh_robust("c02conc", [rp["case"]], timeout=300)[0]
+        print("replay (concurrent formatting):", json.dumps(o)[:600])
+        return 1 if (o.get("kind") != "ok" or o.get("wrong")) else 0
     if rp.get("kind") == "cli3":
         import vlib
         why = cli_run_job(rp["exe"], job_from_json(rp["job"]), os.path.join(vlib.BUILD, "c02_cli3_replay"))
